@@ -62,12 +62,10 @@ def run(tier):
     for o in ("generated", "imported", "loaded_from_file", "seed", "path", "secure_generated", "secure_seed", "raw_keypair"):
         if origins.get(o, 0) == 0:
             rep.notes.append("no identity of origin %s could be constructed in this run" % o)
-    for need in ("Sign", "Verify:ml_dsa_verify", "Verify:NodeIdentity::verify", "VerifyFlips", "Auth:single", "Auth:delegated", "Auth:threshold",
-                 "Update", "IpVerify"):
-        if kinds.get(need, 0) == 0:
-            raise vlib.ToolError("driver produced no %s event" % need)
+    vacuous = [need for need in ("Sign", "Verify:ml_dsa_verify", "Verify:NodeIdentity::verify", "VerifyFlips", "Auth:single", "Auth:delegated",
+                                 "Auth:threshold", "Update", "IpVerify") if kinds.get(need, 0) == 0]
     if not any(e["ev"] == "Verify" and e["res"] == "true" for e in recs):
-        raise vlib.ToolError("no verification succeeded: the shipping crypto path is not exercised")
+        vacuous.append("successful verification (the shipping crypto path is not exercised)")
     rep.sample({"verify": [e for e in recs if e["ev"] == "Verify"][:4]})
     rep.sample({"threshold": [e for e in recs if e["ev"] == "Auth" and e["kind"] == "threshold"][:3]})
     rep.sample({"update": [e for e in recs if e["ev"] == "Update"][:3]})
@@ -77,7 +75,9 @@ def run(tier):
         rep.violation(v["clause"], v["site"], v["cond"], {"line": v["line"], "event": ev, "trace": trace})
     if res["nviol"] > len(res["viol"]):
         rep.notes.append("%d violations in total, first 10 of each (clause, site, cond) class kept" % res["nviol"])
-    selftest(recs, wd)
+    if vacuous and not _unknown_violations(rep):
+        raise vlib.ToolError("driver produced no %s event" % ", ".join(vacuous))
+    _selftest_guarded(rep, selftest, recs, wd)
     rep.assumptions.append("build profile `verif` has debug-assertions off: ml_dsa_sign/ml_dsa_verify are the cfg(not(debug_assertions)) "
                            "ML-DSA-65 path (a run where no verification succeeds is a tool error)")
     return rep.finish(
@@ -115,3 +115,25 @@ def selftest(recs, wd):
     for i, (name, _) in enumerate(variants):
         if i > 0 and per[i] <= per[0]:
             raise vlib.ToolError("self-test %s: corrupted trace was not rejected (%s)" % (name, per))
+
+
+def _unknown_violations(rep):
+    """Violations of this run that no known finding explains (same matching as vlib.Report.finish)."""
+    import re as _re
+    known = [f for f in vlib.load_findings() if f.get("property") == rep.pid and f.get("status") == "known"]
+    return [v for v in rep.violations
+            if not any(f["clause"] == v["clause"] and f["site"] == v["site"] and _re.fullmatch(f["cond"], str(v["cond"])) for f in known)]
+
+
+def _selftest_guarded(rep, fn, *args):
+    """The binding self-test compares violation counts of corrupted copies with the intact copy. On a tree that
+    already violates the property the comparison can be inconclusive; then the violations are the result (exit 1),
+    not a tool error. On an otherwise clean run a failing self-test stays a tool error."""
+    try:
+        fn(*args)
+    except vlib.ToolError as e:
+        if _unknown_violations(rep):
+            rep.notes.append("binding self-test inconclusive on a violating trace: %s" % e)
+            vlib.log("self-test inconclusive (trace has new violations): %s" % e)
+        else:
+            raise
